@@ -2697,3 +2697,61 @@ func c08r26(rc *core.RC) {
 		rc.Unknown("encoder/operation-conversions", token.NoPos, "found %d conversion methods of OpType that search the operation's name (confirmed: 5)", n)
 	}
 }
+
+// ---- C08.R27 the cycle search runs before the pointer is recorded ----
+
+// OpRecursive records the address it is about to follow in ctx.SeenPtr and, beyond a thousand levels, first looks
+// whether that address is already there: a hit is a cycle. The search has to come before the record. With the append
+// in front the search always finds the address just recorded: every acyclic value nested deeper than the threshold is
+// refused as "encountered a cycle" (a linked list of 1003 nodes no longer encodes). Obligation, in the clause of every
+// interpreter that ranges over ctx.SeenPtr: the append to ctx.SeenPtr stands behind the loop.
+func c08r27(rc *core.RC) {
+	p := rc.P
+	n := 0
+	for _, vm := range core.VMPkgs {
+		fd := p.Func(vm, "Run")
+		if fd == nil || fd.Body == nil {
+			rc.Unknown(vm+".Run", token.NoPos, "interpreter not found")
+			continue
+		}
+		info := p.Info(fd)
+		rc.Touch(vm + ".Run")
+		isSeen := func(e ast.Expr) bool {
+			f := core.FieldOf(info, e)
+			return f != nil && f.Name() == "SeenPtr"
+		}
+		k := 0
+		ast.Inspect(fd.Body, func(m ast.Node) bool {
+			cc, ok := m.(*ast.CaseClause)
+			if !ok {
+				return true
+			}
+			var search, record token.Pos
+			ast.Inspect(cc, func(x ast.Node) bool {
+				switch v := x.(type) {
+				case *ast.RangeStmt:
+					if isSeen(v.X) && !search.IsValid() {
+						search = v.Pos()
+					}
+				case *ast.AssignStmt:
+					if len(v.Lhs) == 1 && len(v.Rhs) == 1 && isSeen(v.Lhs[0]) {
+						if c, ok := core.Unparen(v.Rhs[0]).(*ast.CallExpr); ok && core.IsBuiltin(info, c, "append") && !record.IsValid() {
+							record = v.Pos()
+						}
+					}
+				}
+				return true
+			})
+			if !search.IsValid() || !record.IsValid() {
+				return true
+			}
+			k++
+			n++
+			rc.Check(search < record, fmt.Sprintf("%s.Run/cycle-search#%d before-the-record", vm, k), record, "the address is appended to ctx.SeenPtr in front of the loop that searches ctx.SeenPtr for it: the search finds what was just recorded, and every value nested deeper than the threshold is refused as a cycle")
+			return false
+		})
+	}
+	if n < 4 {
+		rc.Unknown("vm/cycle-searches", token.NoPos, "found %d clauses that search and record ctx.SeenPtr (confirmed: 4, one per interpreter)", n)
+	}
+}
